@@ -83,6 +83,22 @@ def worker(d, lib_path, pid, nsess, seed, bufsize, barrier, faults):
     prober = Prober(lib_path) if faults else None
     lib = Collection(lib_path, UkvCollectionBackend, readonly=False, bufsize=bufsize, value_encoder=encoder)
     mine = []
+    # random delays at the boundaries of the protocol steps (begin / flush / end / lock release) widen the
+    # windows in which a mis-ordered step (e.g. lock released before the file is closed) becomes visible
+    jit = random.Random(seed ^ 0x5EED)
+
+    def delayed(obj, name):
+        orig = getattr(obj, name)
+
+        def wrapper(*a, **kw):
+            if jit.random() < 0.5:
+                time.sleep(jit.random() * 0.003)
+            return orig(*a, **kw)
+        setattr(obj, name, wrapper)
+    for name in ("begin_read", "begin_write", "end_read", "end_write", "flush"):
+        delayed(lib._backend, name)
+    for name in ("release_write_lock", "release_read_lock"):
+        delayed(lib._backend._lock, name)
     barrier.wait()
     TO = 20
     for s in range(nsess):
